@@ -465,10 +465,16 @@ func casketfileText(dir string, gen int, cf cfgSpec, fail string) string {
 		if o.M == "n" {
 			amp = " &"
 		}
-		fmt.Fprintf(&b, "\ton %s %s g%d.%d %s %s %s%s\n", onWord[o.E], cmd, gen, j+1, o.M, o.O, dir, amp)
+		word := onWord[o.E]
+		if (gen+j)%2 == 0 {
+			word = strings.ToUpper(word[:1]) + word[1:] // event names are matched case-insensitively
+		}
+		fmt.Fprintf(&b, "\ton %s %s g%d.%d %s %s %s%s\n", word, cmd, gen, j+1, o.M, o.O, dir, amp)
 	}
 	if fail == "onparse" {
-		b.WriteString("\ton nosuchevent /bin/true\n")
+		// what onParse refuses: an unknown event, the events `on` cannot name, a missing command
+		bogus := []string{"on nosuchevent /bin/true", "on instancerestart /bin/true", "on instancestartup /bin/true", "on shutdown"}
+		b.WriteString("\t" + bogus[gen%len(bogus)] + "\n")
 	}
 	f := fail
 	if f == "restartcb" || f == "load" || f == "onparse" {
